@@ -1151,7 +1151,7 @@ static void add_ref_seeds(void) {
 static const char *QUICK_SEEDS[] = {
 	"ref:sig.tail3.rfc0", "ref:sig.tail2.rfc1", "ref:aggr-resp.v2", "ref:aggr-resp.v1", "ref:ext-resp.v2", "ref:ext-resp.v1", "ref:aggr-error.v2",
 	"ref:ext-conf.v2", "ref:sig.zero-length-input-hash", "ok-sig-metadata-with-padding.ksig", "rfc3161-sha1-as-input-hash-2017.ksig", "ok_nested-9.tlv",
-	"publications-one-cert-one-publication-record-with-wrong-hash.tlv", NULL
+	"publications-one-cert-one-publication-record-with-wrong-hash.tlv", "ref:pubfile.large-unknown-record", NULL
 };
 
 static void load_seeds(void) {
@@ -1160,6 +1160,28 @@ static void load_seeds(void) {
 	add_ref_seeds();
 	load_dir("");
 	load_dir("v2");
+	{
+		/* a publications file that carries a large unknown non-critical record in front of its signature record (the parser skips it, a
+		 * re-serialization drops it: the rebuilt file is much shorter than the bytes that were parsed) */
+		int n0 = NSEEDS;
+		for (i = 0; i < n0; i++) if (!strcmp(SEEDS[i].name, "publications-one-cert-one-publication-record-with-wrong-hash.tlv")) {
+			const unsigned char *d = SEEDS[i].d;
+			size_t n = SEEDS[i].n, off = 8;
+			rtlv t;
+			while (off < n && rtlv_read(d + off, n - off, &t) == 0 && t.tag != 0x704) off += t.hdr + t.len;
+			if (off < n && t.tag == 0x704) {
+				vbuf o, pad;
+				size_t padn = t.hdr + t.len + 1000, j;
+				vb_init(&o); vb_init(&pad);
+				for (j = 0; j < padn; j++) vb_putc(&pad, (unsigned char)(j * 7 + 1));
+				vb_put(&o, d, off);
+				rtlv_put(&o, 0x710, 1, 0, pad.p, pad.n, 1);
+				vb_put(&o, d + off, n - off);
+				add_seed("ref:pubfile.large-unknown-record", o.p, o.n);
+				vb_free(&o); vb_free(&pad);
+			}
+		}
+	}
 	for (i = 0; i < NSEEDS; i++) for (k = 0; QUICK_SEEDS[k]; k++) if (!strcmp(SEEDS[i].name, QUICK_SEEDS[k])) SEEDS[i].quick = 1;
 	/* user publications file of the rich verification context */
 	vb_init(&g_userpub_bytes);
